@@ -243,6 +243,9 @@ func (e *env) once(cs *caseRec) *result {
 		}
 	}
 	if res.Class == "violation" {
+		if a.Raise == nil && a.Panic == "" {
+			shape = mismatchClass(cs.Script)
+		}
 		res.Sig = shape + "/" + res.Kind
 	}
 	return res
@@ -436,6 +439,8 @@ type stats struct {
 	Complex       int            `json:"complex_path_judged"`
 	Cluster       int            `json:"cluster_judged"`
 	LimitCuts     int            `json:"limit_cut_judged"`
+	AggJudged     int            `json:"aggregate_judged"`
+	ChainJudged   int            `json:"chain_judged"`
 	Statements    int            `json:"statements_executed"`
 	TagsValues    int            `json:"tags_values_requests"`
 	Shapes        map[string]int `json:"shapes"`
@@ -455,6 +460,8 @@ func (s *stats) add(o *stats) {
 	s.Complex += o.Complex
 	s.Cluster += o.Cluster
 	s.LimitCuts += o.LimitCuts
+	s.AggJudged += o.AggJudged
+	s.ChainJudged += o.ChainJudged
 	s.Statements += o.Statements
 	s.TagsValues += o.TagsValues
 	for k, v := range o.Shapes {
@@ -469,6 +476,7 @@ var directed = []string{
 	`{.a = "x" && (.n > 1 || (.b =~ "^x$" && name != "op2"))}`, `{.a = "x" && .a = "x"}`,
 	`{duration >= 500ms && .a = "x"}`, `{duration > 1s || .a = "x"}`,
 	`{.a = "x"} | count() > 1`, `{.n > 0} | avg(.n) >= 5`, `{.a != "y"} | max(duration) > 1.5s`, `{.n >= 0} | sum(span.n) < 10`, `{name =~ "^op[12]$"} | min(duration) <= 500ms`,
+	`{.n >= 0} | sum(.n) >= 7`, `{.n >= 0} | min(.n) < 5`, `{name != "zz"} | sum(duration) > 2s`, `{name != "zz"} | avg(duration) <= 1s`, `{.n >= 0} | max(.n) = 7`, `{name != "zz"} | count() = 2`,
 	`{.a = "x"} && {.b = "y"}`, `{.a = "x"} || {.b = "y"}`, `{.a = "x"} && {.n > 1} && {name = "op1"}`, `{.a = "x"} || {.b = "y"} || {.n = 7}`,
 	`{.a = "x"} && {.b = "y"} || {.n > 1} | count() > 1`, `{.a = "x"} | count() > 0 && {.n > 1} | avg(.n) > 1`,
 }
@@ -581,6 +589,15 @@ func runBatch(c *run.Ctx, from, n int) *stats {
 				}
 				if len(res.Verdict.Base.Traces) > cs.Req.Limit {
 					st.LimitCuts++
+				}
+				if len(cs.Script.Sels) > 1 {
+					st.ChainJudged++
+				}
+				for _, sel := range cs.Script.Sels {
+					if sel.Agg != nil {
+						st.AggJudged++
+						break
+					}
 				}
 			}
 			c.Cover("path", path, 1)
@@ -744,6 +761,11 @@ func report(c *run.Ctx, st *stats, n int) {
 	c.Extra("statements_executed", st.Statements)
 	c.Extra("tags_values_requests", st.TagsValues)
 	c.Extra("shape_classes", st.Shapes)
+	c.Extra("judged_on_complex_processor", st.Complex)
+	c.Extra("judged_in_cluster_mode", st.Cluster)
+	c.Extra("judged_with_limit_cut", st.LimitCuts)
+	c.Extra("judged_with_aggregate", st.AggJudged)
+	c.Extra("judged_chains", st.ChainJudged)
 	c.Exhaustive(false)
 	c.Floor("cases-generated", n, st.Inputs+st.GeneratorBugs)
 	c.Floor("judged-cases", n/4, st.Judged)
@@ -751,6 +773,8 @@ func report(c *run.Ctx, st *stats, n int) {
 	c.Floor("judged-in-cluster-mode", n/80, st.Cluster)
 	c.Floor("judged-with-limit-cut", n/40, st.LimitCuts)
 	c.Floor("span-sets-judged", n/10, st.SpansJudged)
+	c.Floor("judged-with-aggregate", n/20, st.AggJudged)
+	c.Floor("judged-chains", n/40, st.ChainJudged)
 	c.Floor("shape-classes", 8, len(st.Shapes))
 	if st.GeneratorBugs*50 > n {
 		c.Undecided(fmt.Sprintf("generator: %d of %d scripts rejected by the parser (> 2%%)", st.GeneratorBugs, n))
